@@ -1,36 +1,133 @@
 """C05 — DeepCopy and Clone produce an equal, fully independent copy.
-Proof: Props/C05.lean (result structurally equal incl. nil-ness; every address of the result is fresh
-or from the prior destination, hence disjoint from the source; tree-shaped). Tie: T1 ops deepcopy /
-clone: the destination after the call is observed with canonical address numbering over (source,
-destination) and must be *identical* to the model's (same reuse of the prior destination's memory,
-same fresh allocations); memory ranges of source and destination must not overlap; the source is
-re-observed after the call. deepcopyx = calls outside the precondition (nil source): correspondence only."""
+Proof: Props/C05.lean (every address of the result is fresh or from the prior destination, hence disjoint from
+the source; tree-shaped; no panic; the result is structurally equal in Go's sense for NaN-free sources
+(`deepcopy_equal`, `clone_equal`) and, for EVERY source, has the shape and the bits of the source
+(`deepcopy_same_shape`, `clone_same_shape`: Spec.shapeEq = same nil-ness, lengths, leaves bit for bit, map entries
+paired one to one by the bits of the key and the shape of the value)).
+Tie: T1 ops deepcopy / clone: the destination after the call is observed with canonical address numbering over
+(source, destination) and must be *identical* to the model's (same reuse of the prior destination's memory, same
+fresh allocations); memory ranges of source and destination must not overlap; the source is re-observed after the
+call; `eq` = reflect.DeepEqual / Spec.structEq, `shape` = rt.ShapeEqual / Spec.shapeEq.
+Oracle: a copy is accepted when `alias=0`, `src=1` and it is equal in Go's sense (`eq=1`) OR bit-identical in shape
+(`shape=1`). The second disjunct is what judges sources holding a NaN (a float leaf, or a key of a float-keyed map):
+for those Go's equality says false even for a perfect copy (and for the source against itself), so `eq` alone could
+not tell a lost entry from a faithful one; the first disjunct alone accepts a copy that turned -0 into +0.
+deepcopyx = calls outside the precondition (nil source; top-level map into a populated map that shares keys with the
+source): correspondence only."""
+import re
+
 from vlib import common
 
 PLUGINS = ["deepcopy", "clone"]
 OPS = {"deepcopy", "deepcopyx", "clone"}
 
+_FLT = re.compile(r"(\()?\(f (32|64) (\d+)\)")
+_CPX = re.compile(r"\(c (32|64) (\d+) (\d+)\)")
 
-def nontrivial(f, impl, model, spec):
-    return any(t in f[4] for t in ("(p ", "(sl ", "(m "))
+
+def _nan(w, bits):
+    w, bits = int(w), int(bits)
+    if w == 32:
+        return (bits >> 23) & 0xff == 0xff and bits & 0x7fffff != 0
+    return (bits >> 52) & 0x7ff == 0x7ff and bits & 0xfffffffffffff != 0
+
+
+def _split(args):
+    """top-level s-expressions of an argument string"""
+    out, depth, cur = [], 0, ""
+    for ch in args.strip():
+        if ch == " " and depth == 0:
+            if cur:
+                out.append(cur)
+            cur = ""
+            continue
+        depth += ch == "("
+        depth -= ch == ")"
+        cur += ch
+    if cur:
+        out.append(cur)
+    return out
+
+
+def nan_profile(src):
+    """(has a NaN map key, has a NaN leaf that is not a map key) of a wire value: an entry is printed
+    `(<key> <value>)`, so a float key is the only float that directly follows an opening parenthesis"""
+    key = leaf = False
+    for m in _FLT.finditer(src):
+        if _nan(m.group(2), m.group(3)):
+            if m.group(1):
+                key = True
+            else:
+                leaf = True
+    for m in _CPX.finditer(src):
+        if _nan(m.group(1), m.group(2)) or _nan(m.group(1), m.group(3)):
+            leaf = True
+    return key, leaf
+
+
+class Counter:
+    def __init__(self):
+        self.n = {"nan_key_sources": 0, "nan_leaf_sources": 0, "populated_prior_map_ops": 0,
+                  "populated_prior_map_ops_with_nan_keys": 0, "accepted_equal": 0, "accepted_by_shape_only": 0,
+                  "property_ops": 0}
+
+    def nontrivial(self, f, impl, model, spec):
+        args = _split(f[4])
+        src = args[0] if args else ""
+        key, leaf = nan_profile(src)
+        if f[2] == "deepcopyx":
+            if src.startswith("(m ") and len(args) > 1 and args[1].startswith("(m ") and args[1].count("(") > 1:
+                self.n["populated_prior_map_ops"] += 1
+                if key or nan_profile(args[1])[0]:
+                    self.n["populated_prior_map_ops_with_nan_keys"] += 1
+        else:
+            self.n["property_ops"] += 1
+            self.n["nan_key_sources"] += key
+            self.n["nan_leaf_sources"] += leaf
+            kv = answer_fields(impl)
+            if kv.get("eq") == "1":
+                self.n["accepted_equal"] += 1
+            elif kv.get("shape") == "1":
+                self.n["accepted_by_shape_only"] += 1
+        return any(t in f[4] for t in ("(p ", "(sl ", "(m "))
+
+
+def answer_fields(impl):
+    return dict(p.split("=", 1) for p in (impl or "").split(";")[1:] if "=" in p)
 
 
 def oracle(f, impl):
-    return impl.endswith(";eq=1;alias=0;src=1")
+    kv = answer_fields(impl)
+    return kv.get("alias") == "0" and kv.get("src") == "1" and (kv.get("eq") == "1" or kv.get("shape") == "1")
 
 
 def run(rep):
     rep.cov["rule"] = ("every pointer / slice / map type of the corpus that plugin/deepcopy supports x every pool source (and "
-                       "single-position mutations) x prior destinations (pointer to zero and to populated values, equal-length "
-                       "slices with 0..2 spare capacity and unrelated contents, empty map); clone over every supported type; "
+                       "single-position mutations) x prior destinations (pointer to zero and to populated values, also with NaN keys "
+                       "in their float-keyed maps, equal-length slices with 0..2 spare capacity and unrelated contents, empty map); "
+                       "every such source again with two NaN keys (different payloads, different values) in each of its float-keyed "
+                       "maps, and again with every float leaf a NaN of its own payload; clone over every supported type and the same "
+                       "three kinds of sources; deepcopyx (correspondence only): nil sources, and top-level maps copied into "
+                       "populated maps that share keys with the source (also with NaN keys on both sides); "
                        "distinct = distinct op lines with a non-nil container")
     rep.assumptions += ["user-declared DeepCopy methods are not in the corpus", "map keys are pointer-free (the property's 'value keys')",
                         "'source unchanged' cannot fail in a functional model and is carried by the tie",
-                        "slices of zero-size elements are excluded (no observable backing-array identity)"]
+                        "slices of zero-size elements are excluded (no observable backing-array identity)",
+                        "'equal' is read as: equal in Go's sense (reflect.DeepEqual / Spec.structEq) OR of the same shape and bits "
+                        "(rt.ShapeEqual / Spec.shapeEq); the second reading judges sources that hold a NaN leaf or a NaN map key, "
+                        "which are not equal to themselves in Go's sense; a copy that differs from the source only by the sign of "
+                        "a zero is accepted by the first reading"]
     common.proof_part(rep, "C05", thorough_checker=(rep.tier == "thorough"))
     info = common.prepare_corpus(rep.tier, rep.seed, PLUGINS)
     rep.cov["corpus"] = info["stats"]
-    common.compare_corpus(rep, info, OPS, nontrivial=nontrivial, oracle=oracle, corr_only=("deepcopyx",))
+    cnt = Counter()
+    common.compare_corpus(rep, info, OPS, nontrivial=cnt.nontrivial, oracle=oracle, corr_only=("deepcopyx",))
+    rep.cov.update(cnt.n)
+    # the corpus generator is expected to produce each of these kinds for every seed: an empty class means the check
+    # did not test what it claims
+    for k in ("nan_key_sources", "nan_leaf_sources", "populated_prior_map_ops", "accepted_by_shape_only"):
+        if not cnt.n[k] and not rep.violations:
+            raise common.CheckError("the corpus holds no op of the kind %s" % k)
 
 
 def replay(rep, path):
